@@ -660,6 +660,16 @@ def r15(db, ctx):
                 ctx.ok('R1.5', f, f'{op}<{elem}>: no accelerated arm on this target, unconditional generic fallback')
             else:
                 ctx.fail('R1.5', f, f'{op}', 'reason=unrecognised-shape: no call under a match on self.backend')
+    # every operation the backends accelerate has its dispatching method: a dropped override falls back to the trait default (for `max`:
+    # argmax + lookup, which has the 65536-row limit of the 16-bit row lanes — seed C02-10)
+    if 'Avx2' in vnames.values():
+        present = set()
+        for f in fs:
+            present.add((f.name, 'u8' if 'Score<u8' in f.path or 'Maximum<u8' in f.path else 'f32'))
+        for key in [('encode_into', 'f32'), ('score_rows_into', 'f32'), ('score_rows_into', 'u8'), ('stripe_into', 'f32'), ('argmax', 'f32'), ('max', 'f32'), ('argmax', 'u8'), ('max', 'u8')]:
+            if key not in present:
+                ctx.fail('R1.5', 'lightmotif::pli::dispatch', f'{key[0]}<{key[1]}>: dispatching method missing',
+                         f'Pipeline<_, Dispatch> no longer overrides {key[0]} for {key[1]}: the trait default runs instead of the backend implementation')
     ctx.floor('R1.5', n, 16, 'dispatcher arms')
 
 
@@ -767,6 +777,29 @@ def r110(db, ctx):
     ctx.floor('R1.10', n, 7, 'score read-back / conversion wrappers')
 
 
+def r111(db, ctx):
+    ctx.rule('R1.11', 'StripedScores::resize(rows, max_index) resizes the matrix to `rows` rows and stores `max_index` unchanged: the scanner scores one '
+                      'block of rows at a time while max_index stays the number of valid positions of the whole sequence')
+    fs = [f for f in db.fns.values() if f.path.startswith('lightmotif::scores::StripedScores::') and f.name == 'resize' and f.kind == 'AssocFn' and not f.promoted_of]
+    if len(fs) != 1:
+        ctx.fail('R1.11', 'lightmotif::scores::StripedScores::resize', 'anchor', f'reason=anchor-missing: {len(fs)} bodies')
+        return
+    f = fs[0]
+    R = X.Rec(f)
+    probs = []
+    sts = [s_ for s_ in X.stores(f, R) if norm(s_['target']) == ('fld', ('p', 1), 'max_index')]
+    if len(sts) != 1 or norm(sts[0]['value']) != ('p', 3):
+        probs.append('self.max_index is assigned ' + (X.show(norm(sts[0]['value']), 80) if len(sts) == 1 else f'{len(sts)} times') + ', expected the max_index argument as given')
+    rs = [(bi, t) for bi, t in f.calls() if (f.callee_short(t) or '').endswith('DenseMatrix::resize')]
+    if len(rs) != 1 or norm(R.at(rs[0][0]).operand(rs[0][1]['args'][1])) != ('p', 2) or X.strip_refs(norm(R.at(rs[0][0]).operand(rs[0][1]['args'][0]))) != ('fld', ('p', 1), 'data') \
+            or not all(f.dominates(rs[0][0], x_) for x_ in f.exits()):
+        probs.append('the matrix is not resized to exactly `rows` rows on every path')
+    if probs:
+        ctx.fail('R1.11', f, 'StripedScores::resize', '; '.join(probs))
+    else:
+        ctx.ok('R1.11', f, 'data.resize(rows); max_index = max_index', ['both arguments stored as given'])
+
+
 def kernel_rules(db, ctx):
     ctx.rule('R1.1', 'lane semantics of each scoring kernel: stored cell (r, c) = Σ_{j < rows(pssm)} T_j[seq(rows.start + r + j, c)]; accumulators start at the additive identity; '
                      'table / sequence / result pointers advance in lock-step by their own strides; every column stored exactly once')
@@ -780,6 +813,7 @@ def kernel_rules(db, ctx):
 def run(db, ctx):
     kernel_rules(db, ctx)
     r110(db, ctx)
+    r111(db, ctx)
     r12(db, ctx)
     r13(db, ctx)
     r14(db, ctx)
